@@ -1,7 +1,433 @@
 package main
 
-import "time"
+import (
+	"bufio"
+	"encoding/json"
+	"fmt"
+	"os"
+	"path/filepath"
+	"regexp"
+	"runtime"
+	"sort"
+	"strings"
+	"time"
+)
+
+type PropConfig struct {
+	Funcs       []string `json:"funcs"`       // regexes over contract keys to verify
+	Select      []string `json:"select"`      // regexes over obligation names that belong to the property
+	Level       string   `json:"level"`       // proof | other
+	Assumptions []string `json:"assumptions"` // property-level assumptions (residuals)
+	Bounded     []string `json:"bounded"`     // names of bounded stand-ins (run by the check script)
+	Explanation string   `json:"explanation"`
+}
+
+type Ledger struct {
+	Property    string   `json:"property"`
+	Obligations []string `json:"obligations"`
+}
+
+type KnownFinding struct {
+	Kind       string `json:"kind"` // known | fixed
+	Property   string `json:"property"`
+	Obligation string `json:"obligation"`
+	Witness    string `json:"witness"`
+	What       string `json:"what"`
+	Commit     string `json:"commit,omitempty"`
+}
+
+type oblGroup struct {
+	Name      string
+	Instances []*Obligation
+	FV        *FV
+}
+
+func (g *oblGroup) status() string {
+	worst := "unsat"
+	for _, o := range g.Instances {
+		switch o.Status {
+		case "unsat":
+		case "sat":
+			return "sat"
+		case "disagree":
+			return "disagree"
+		default:
+			worst = o.Status
+		}
+	}
+	return worst
+}
+
+func loadKnown(path string) []KnownFinding {
+	var out []KnownFinding
+	f, err := os.Open(path)
+	if err != nil {
+		return nil
+	}
+	defer f.Close()
+	sc := bufio.NewScanner(f)
+	sc.Buffer(make([]byte, 1<<20), 1<<20)
+	for sc.Scan() {
+		l := strings.TrimSpace(sc.Text())
+		if l == "" || strings.HasPrefix(l, "#") {
+			continue
+		}
+		var k KnownFinding
+		if json.Unmarshal([]byte(l), &k) == nil {
+			out = append(out, k)
+		}
+	}
+	return out
+}
 
 func runProperty(eng *Engine, verifDir, prop, tier string, updateLedger, verbose bool, dump string, t0 time.Time) int {
-	return 2
+	cfgAll := map[string]*PropConfig{}
+	b, err := os.ReadFile(filepath.Join(verifDir, "props.json"))
+	if err != nil {
+		fmt.Fprintln(os.Stderr, "props.json:", err)
+		return 2
+	}
+	if err := json.Unmarshal(b, &cfgAll); err != nil {
+		fmt.Fprintln(os.Stderr, "props.json:", err)
+		return 2
+	}
+	cfg := cfgAll[prop]
+	if cfg == nil {
+		fmt.Fprintf(os.Stderr, "property %s not configured\n", prop)
+		return 2
+	}
+	var fre, sre []*regexp.Regexp
+	for _, f := range cfg.Funcs {
+		fre = append(fre, regexp.MustCompile(f))
+	}
+	for _, s := range cfg.Select {
+		sre = append(sre, regexp.MustCompile(s))
+	}
+	matchAny := func(res []*regexp.Regexp, s string) bool {
+		for _, r := range res {
+			if r.MatchString(s) {
+				return true
+			}
+		}
+		return false
+	}
+	timeout := 10 * time.Second
+	all := false
+	if tier == "thorough" {
+		timeout = 60 * time.Second
+		all = true
+	}
+	seed := 0
+	fmt.Sscanf(os.Getenv("VERIF_SEED"), "%d", &seed)
+
+	// 1. verify functions in the cone
+	var fvs []*FV
+	var unbound []string
+	var keys []string
+	for k := range eng.specs.Funcs {
+		keys = append(keys, k)
+	}
+	sort.Strings(keys)
+	for _, k := range keys {
+		spec := eng.specs.Funcs[k]
+		if spec.Kind != "func" || spec.Trusted || !matchAny(fre, k) {
+			continue
+		}
+		fn := eng.funcs[k]
+		if fn == nil || len(fn.Blocks) == 0 {
+			unbound = append(unbound, k)
+			continue
+		}
+		fv := NewFV(eng, fn, spec)
+		fv.Verify()
+		fv.nameObligations()
+		fvs = append(fvs, fv)
+	}
+	sel := func(o *Obligation) bool { return matchAny(sre, o.Name) }
+	dischargeAll(fvs, sel, timeout, all, runtime.NumCPU())
+
+	// 2. group
+	groups := map[string]*oblGroup{}
+	outsideFuncs := map[string][]string{}
+	for _, fv := range fvs {
+		if len(fv.outside) > 0 {
+			outsideFuncs[fv.short] = fv.outside
+		}
+		for _, o := range fv.obls {
+			if !sel(o) {
+				continue
+			}
+			g := groups[o.Name]
+			if g == nil {
+				g = &oblGroup{Name: o.Name, FV: fv}
+				groups[o.Name] = g
+			}
+			g.Instances = append(g.Instances, o)
+		}
+	}
+	var names []string
+	for n := range groups {
+		names = append(names, n)
+	}
+	sort.Strings(names)
+
+	ledgerPath := filepath.Join(verifDir, "ledger", prop+".json")
+	var ledger Ledger
+	if lb, err := os.ReadFile(ledgerPath); err == nil {
+		json.Unmarshal(lb, &ledger)
+	}
+	inLedger := map[string]bool{}
+	for _, n := range ledger.Obligations {
+		inLedger[n] = true
+	}
+	known := loadKnown(filepath.Join(verifDir, "known_findings.jsonl"))
+	knownFor := func(name string) *KnownFinding {
+		for i := range known {
+			if known[i].Kind == "known" && known[i].Property == prop && known[i].Obligation == name {
+				return &known[i]
+			}
+		}
+		return nil
+	}
+
+	if updateLedger {
+		var ok []string
+		for _, n := range names {
+			g := groups[n]
+			if g.status() == "unsat" && len(outsideFuncs[g.FV.short]) == 0 {
+				ok = append(ok, n)
+			}
+		}
+		os.MkdirAll(filepath.Dir(ledgerPath), 0o755)
+		lb, _ := json.MarshalIndent(Ledger{Property: prop, Obligations: ok}, "", " ")
+		os.WriteFile(ledgerPath, append(lb, '\n'), 0o644)
+		fmt.Printf("ledger %s: %d obligations\n", ledgerPath, len(ok))
+		inLedger = map[string]bool{}
+		for _, n := range ok {
+			inLedger[n] = true
+		}
+		ledger.Obligations = ok
+	}
+
+	// 3. classify
+	violations := 0
+	discharged := 0
+	var undecided, newFailed, knownLines []string
+	solverCount := map[string]int{}
+	solverSecs := 0.0
+	var samples []map[string]interface{}
+	var violationLines []string
+	for _, n := range names {
+		g := groups[n]
+		st := g.status()
+		for _, o := range g.Instances {
+			solverCount[o.Solver]++
+			solverSecs += o.Secs
+		}
+		if len(outsideFuncs[g.FV.short]) > 0 {
+			undecided = append(undecided, fmt.Sprintf("%s (function outside verifier subset: %s)", n, outsideFuncs[g.FV.short][0]))
+			continue
+		}
+		if st == "unsat" {
+			discharged++
+			if len(samples) < 6 {
+				o := g.Instances[0]
+				samples = append(samples, map[string]interface{}{"obligation": n, "at": o.PosStr, "clause": o.Clause, "paths": len(g.Instances), "smt_bytes": o.SMTLen, "solver": o.Solver})
+			}
+			continue
+		}
+		if st == "disagree" {
+			fmt.Printf("ENGINE-FAULT solvers disagree on %s\n", n)
+			return 2
+		}
+		if kf := knownFor(n); kf != nil {
+			knownLines = append(knownLines, fmt.Sprintf("KNOWN-FINDING: property=%s obligation=%s witness=%q %s", prop, n, kf.Witness, kf.What))
+			continue
+		}
+		if inLedger[n] || st == "sat" {
+			// violation: replay
+			rp := writeReplay(eng, verifDir, prop, g, dump)
+			line := fmt.Sprintf("VIOLATION property=%s replay=%s", prop, rp.Path)
+			if !rp.Reproduced {
+				if !inLedger[n] {
+					// a new obligation that only fails without a confirmed input: not an alarm
+					newFailed = append(newFailed, fmt.Sprintf("%s (%s, unconfirmed)", n, st))
+					continue
+				}
+				line += " no-failing-input-found"
+			}
+			violationLines = append(violationLines, line+"  # obligation="+n)
+			violations++
+			continue
+		}
+		newFailed = append(newFailed, fmt.Sprintf("%s (%s)", n, st))
+	}
+	for _, n := range ledger.Obligations {
+		if groups[n] == nil {
+			undecided = append(undecided, n+" (contract unbound or program point gone)")
+		}
+	}
+	for _, u := range unbound {
+		undecided = append(undecided, u+" (contract names a function that does not exist)")
+	}
+	for _, u := range undecided {
+		fmt.Printf("UNDECIDED obligation=%s\n", u)
+	}
+	for _, u := range newFailed {
+		fmt.Printf("NOT-IN-LEDGER undischarged obligation=%s\n", u)
+	}
+	for _, k := range knownLines {
+		fmt.Println(k)
+	}
+	for _, v := range violationLines {
+		fmt.Println(v)
+	}
+	if verbose {
+		for _, n := range names {
+			fmt.Printf("  %-8s %s\n", groups[n].status(), n)
+		}
+	}
+
+	// 4. evidence
+	var funcsUnder []string
+	unm := map[string]bool{}
+	inl := map[string]bool{}
+	byContract := map[string]bool{}
+	assume := map[string]bool{}
+	for _, fv := range fvs {
+		funcsUnder = append(funcsUnder, fv.short)
+		for k := range fv.unmodelled {
+			unm[k] = true
+		}
+		for k := range fv.inlined {
+			inl[k] = true
+		}
+		for k := range fv.calleesByContract {
+			byContract[k] = true
+		}
+		for k := range fv.assumptions {
+			assume[k] = true
+		}
+	}
+	var assumedContracts []string
+	for k := range byContract {
+		if s := eng.specs.Funcs[k]; s != nil && s.Trusted {
+			assumedContracts = append(assumedContracts, k)
+		}
+	}
+	sort.Strings(assumedContracts)
+	level := cfg.Level
+	if level == "" {
+		level = "proof"
+	}
+	assumptions := []string{
+		"T1: x/tools go/packages + go/ssa v0.29.0 (naive form) lower the Go source faithfully",
+		"T2: plushvc's SSA-to-SMT semantics (guarded by the must-fail selftest corpus)",
+		"T4: z3 5.1.0 / z3 4.8.12 / cvc5 1.0.3 are sound",
+		"A1: int arithmetic is mathematical (no overflow obligations) except in functions marked 'arith wrap'",
+		"A3: strings are an uninterpreted sort with length/byte/substring/concat axioms",
+		"A4: slices are values (array,len); no aliasing through in-place element stores",
+		"implicit precondition: pointer receivers of repo methods are non-nil (checked at repo call sites)",
+	}
+	for _, a := range cfg.Assumptions {
+		assumptions = append(assumptions, a)
+	}
+	for _, a := range sortedKeys(assume) {
+		assumptions = append(assumptions, a)
+	}
+	for _, a := range assumedContracts {
+		assumptions = append(assumptions, "T3 assumed contract (trusted/external): "+a)
+	}
+	for _, a := range sortedKeys(unm) {
+		assumptions = append(assumptions, "unmodelled call (result unconstrained, heap havocked): "+a)
+	}
+	total := len(names)
+	coverage := map[string]interface{}{
+		"obligations":           total,
+		"discharged":            discharged,
+		"checker_cmd":           fmt.Sprintf("/verif/bin/plushvc -repo %s -prop %s -tier %s", eng.repo, prop, tier),
+		"trusted_base":          []string{"golang.org/x/tools v0.29.0 go/ssa", "plushvc VC generator (/verif/engine)", "z3-new 5.1.0", "z3 4.8.12", "cvc5 1.0.3", "/verif/stdlib/*.spec assumed contracts"},
+		"functions_under_contract": funcsUnder,
+		"functions_inlined":     sortedKeys(inl),
+		"query_instances":       countInstances(groups),
+		"solver_answers":        solverCount,
+		"solver_seconds":        round2(solverSecs),
+		"undecided":             undecided,
+		"not_in_ledger_undischarged": newFailed,
+		"known_findings":        knownLines,
+		"bounded":               cfg.Bounded,
+		"samples":               samples,
+		"explanation":           cfg.Explanation,
+		"ledger_size":           len(ledger.Obligations),
+		"evaluations":           countInstances(groups),
+		"distinct_nontrivial":   total,
+		"rule":                  "one evaluation = one (obligation, path) SMT query; distinct = distinct named obligations generated from /repo's current source",
+	}
+	ev := map[string]interface{}{
+		"property_id": prop,
+		"tier":        tier,
+		"seed":        seed,
+		"level":       level,
+		"coverage":    coverage,
+		"assumptions": assumptions,
+		"wall_s":      round2(time.Since(t0).Seconds()),
+		"violations":  violations,
+	}
+	os.MkdirAll(filepath.Join(verifDir, "evidence"), 0o755)
+	eb, _ := json.MarshalIndent(ev, "", " ")
+	os.WriteFile(filepath.Join(verifDir, "evidence", prop+".json"), append(eb, '\n'), 0o644)
+	fmt.Printf("property %s: %d obligations, %d discharged, %d undecided, %d known findings, %d violations, %.1fs\n",
+		prop, total, discharged, len(undecided), len(knownLines), violations, time.Since(t0).Seconds())
+	if total == 0 {
+		fmt.Println("ENGINE-FAULT zero obligations generated (vacuous check)")
+		return 2
+	}
+	if violations > 0 {
+		return 1
+	}
+	return 0
+}
+
+func countInstances(groups map[string]*oblGroup) int {
+	n := 0
+	for _, g := range groups {
+		n += len(g.Instances)
+	}
+	return n
+}
+
+func round2(f float64) float64 { return float64(int(f*100+0.5)) / 100 }
+
+type replayResult struct {
+	Path       string
+	Reproduced bool
+}
+
+// writeReplay records a failed obligation; replay harnesses (replay.go) try to
+// reproduce it on the real code.
+func writeReplay(eng *Engine, verifDir, prop string, g *oblGroup, dump string) replayResult {
+	dir := filepath.Join(verifDir, "replays", prop)
+	os.MkdirAll(dir, 0o755)
+	path := filepath.Join(dir, smtName(g.Name)+".json")
+	var inst []map[string]interface{}
+	for _, o := range g.Instances {
+		if o.Status == "unsat" {
+			continue
+		}
+		inst = append(inst, map[string]interface{}{"path": o.Path, "at": o.PosStr, "status": o.Status, "solver": o.Solver, "solver_output": o.Model})
+	}
+	rec := map[string]interface{}{
+		"property":   prop,
+		"obligation": g.Name,
+		"function":   g.FV.short,
+		"clause":     g.Instances[0].Clause,
+		"instances":  inst,
+	}
+	rr := replayResult{Path: path}
+	repro := tryReplay(eng, verifDir, prop, g, rec)
+	rr.Reproduced = repro
+	rec["reproduced_on_real_code"] = repro
+	b, _ := json.MarshalIndent(rec, "", " ")
+	os.WriteFile(path, append(b, '\n'), 0o644)
+	return rr
 }
